@@ -99,9 +99,25 @@ class Merge(Expr):
             predicate_columns = self._predicate_columns(predicate)
             if predicate_columns is None:
                 return False
-            if predicate_columns.issubset(self.left.columns):
+            left_suffix, right_suffix = self.suffixes[0], self.suffixes[1]
+
+            def _renamed(suffix, other):
+                # the plain name belongs to the other input, this side's
+                # column was renamed with its suffix
+                return suffix != "" and any(
+                    f"{col}{suffix}" in self.columns and col in other.columns
+                    for col in predicate_columns
+                )
+
+            on_left = predicate_columns.issubset(
+                self.left.columns
+            ) and not _renamed(left_suffix, self.right)
+            on_right = predicate_columns.issubset(
+                self.right.columns
+            ) and not _renamed(right_suffix, self.left)
+            if on_left:
                 return self.how in ("left", "inner", "leftsemi")
-            elif predicate_columns.issubset(self.right.columns):
+            elif on_right:
                 return self.how in ("right", "inner")
             elif len(predicate_columns) > 0:
                 return False
